@@ -105,19 +105,23 @@ def run_tokenizer(unit):
     cfg = {'harness': 'tokenizer', 'clause': kind, 'line_length': n}
     log = harness.UnitLog(cfg)
 
-    if kind == 'whole-line':
-        # one fully symbolic line: classification and fields agree with the layout-free reading of the same characters
+    if kind in ('whole-line', 'neighbours'):
+        # one fully symbolic line: classification and fields agree with the layout-free reading of the same characters.  'neighbours': the
+        # same line stands between two ordinary parameter lines, which it must leave alone whatever it contains (a comment, a blank line,
+        # a line without a comma, a line ending in any character)
+        before, after = (['Aa, 1\n'], ['Bb, 2\n', 'Cc, 3']) if kind == 'neighbours' else ([], [])
+
         def fn():
             line = SymStr.fresh('c', n)
             no_eol(line)
-            d = tokenize([line + '\n'])
+            d = tokenize(before + [line + '\n'] + after)
             return line, d
         zv = {f'c[{i}]': z3.Int(f'c[{i}]') for i in range(n)}
 
         def concrete(inp):
             txt = ''.join(chr(int(inp.get(f'c[{i}]', 63))) for i in range(n))
-            got = concrete_tokenize(txt + '\n')
-            want = reference_parse([txt])
+            got = concrete_tokenize(''.join(before) + txt + '\n' + ''.join(after))
+            want = reference_parse(before + [txt] + after)
             return got != want, {'line': repr(txt), 'reader': got, 'reference': want}
         k = 0
         for pr in core.explore(fn, max_paths=20000):
@@ -136,11 +140,12 @@ def run_tokenizer(unit):
             if r != 'sat':
                 continue
             txt = line.concrete(m)
-            want = reference_parse([txt])
+            want = reference_parse(before + [txt] + after)
             got = {}
             for key, e in d.items():
                 got[_c(key, m)] = (_c(e.sValue, m), _c(e.Comment, m), _c(e.raw_entry, m))
-            harness.discharge(log, c, 'one line: comment / comma-less lines contribute nothing; otherwise name = first field stripped, value = second field stripped',
+            harness.discharge(log, c, 'one line: comment / comma-less lines contribute nothing; otherwise name = first field stripped, value = second field stripped'
+                              + (' - and the lines before and after it are read as if it were not there' if kind == 'neighbours' else ''),
                               got == want, zv, concrete, sample=(k == 3))
         yield log.result()
         return
@@ -636,6 +641,7 @@ ORDER_CLASSES = [('geophires_x.SurfacePlant', 'SurfacePlant'), ('geophires_x.Res
 def units(tier, seed):
     n = LEN[tier]
     us = [{'harness': 'tokenizer', 'kind': 'whole-line', 'n': k} for k in range(1, n + 1)]
+    us += [{'harness': 'tokenizer', 'kind': 'neighbours', 'n': k} for k in range(1, n)]
     us += [{'harness': 'tokenizer', 'kind': 'decoration', 'n': n, 'nn': nn, 'nv': nv} for nn, nv in ((1, 1), (2, 1), (1, 2))]
     us += [{'harness': 'tokenizer', 'kind': 'duplicates', 'n': n, 'nn': nn, 'nv': nv} for nn, nv in ((1, 1), (2, 1))]
     for modn, clsn in ORDER_CLASSES[:4 if tier == 'quick' else None]:
